@@ -73,6 +73,10 @@ def eval_bool(test, assign, subst=None, norm=default_norm):
     return assign[t] == p
 
 
+def try_atom(st):
+    return "raises: " + "; ".join(canon(x)[:60] for x in st.body[:2])
+
+
 class Walker:
     """Walks a statement list under a truth assignment.
 
@@ -98,6 +102,15 @@ class Walker:
                 self.atoms(st.body, out)
             elif isinstance(st, ast.With):
                 self.atoms(st.body, out)
+            elif isinstance(st, ast.Try):
+                k = try_atom(st)
+                if k not in out:
+                    out.append(k)
+                self.atoms(st.body, out)
+                for h in st.handlers:
+                    self.atoms(h.body, out)
+                self.atoms(st.orelse, out)
+                self.atoms(st.finalbody, out)
         return out
 
     def walk(self, stmts, assign, events):
@@ -117,7 +130,25 @@ class Walker:
                 r = self.walk(st.body, assign, events)
                 if r:
                     return r
-            elif isinstance(st, (ast.While, ast.Try, ast.For)):
+            elif isinstance(st, ast.Try):
+                # oracle atom: does the protected region raise (a class the
+                # first handler catches)?  Partial effects of the body on the
+                # exceptional path are not modelled: bodies must be simple.
+                if assign[try_atom(st)]:
+                    if not st.handlers:
+                        raise AnalysisError("try without handler")
+                    events.append(("exc", try_atom(st)))
+                    r = self.walk(st.handlers[0].body, assign, events)
+                else:
+                    r = self.walk(st.body, assign, events)
+                    if not r:
+                        r = self.walk(st.orelse, assign, events)
+                if st.finalbody:
+                    r2 = self.walk(st.finalbody, assign, events)
+                    r = r or r2
+                if r:
+                    return r
+            elif isinstance(st, (ast.While, ast.For)):
                 raise AnalysisError("decision table: compound statement unclassifiable: %s" % canon(st)[:50])
             elif isinstance(st, ast.Return):
                 e = self.event(st)
